@@ -21,6 +21,8 @@ def _v(*alts):
     return st.sampled_from([list(a) for a in alts])
 
 
+SPECIAL_ITEMS = st.sampled_from(["StopAsyncIteration", "StopIteration", "NotImplemented", "Ellipsis", "GeneratorExit",
+                                 "object", "type", "KeyError", "IndexError"]).map(lambda n: ["x", n])
 TRUTHY_PRIMS = _v(["i", 0], ["i", 1], ["i", 2], ["s", ""], ["s", "x"], ["n"], ["n"], ["n"], ["b", True],
                   ["b", False], ["f", 0.0], ["f", 0.5], ["l", []], ["l", [["i", 0]]], ["t", []])
 NUM_PRIMS = st.one_of(
@@ -53,7 +55,7 @@ PROFILES = {
     # a class with only __lt__ plus functools.total_ordering and identity equality (ties: a > b and b > a)
     "ltonly": st.integers(0, 3).map(lambda k: ("LT", k)),
     # mixed truthiness; occasionally a data item that is itself awaitable (must never be awaited)
-    "truthy": st.one_of(K, K, TRUTHY_PRIMS, TRUTHY_PRIMS, TRUTHY_PRIMS, st.just(("AW",))),
+    "truthy": st.one_of(K, K, TRUTHY_PRIMS, TRUTHY_PRIMS, TRUTHY_PRIMS, st.just(("AW",)), SPECIAL_ITEMS),
     "num": st.one_of(NUM_PRIMS, NUM_PRIMS, NUM_PRIMS, K,
                      st.tuples(st.integers(-1, 2), st.integers(-1, 1)).map(lambda t: ["c", t[0], t[1]])),
     "lists": st.tuples(st.sampled_from(["l", "l", "l", "t"]),
